@@ -4,6 +4,7 @@ src/semaphore.c)."""
 import common
 import conc
 import driver
+import replay as rsearch
 
 PROPERTIES_FILE = "Properties/Properties_C08.v"
 COQ_DEPS = ["Proofs/Sema_proofs.vo", "Proofs/SemaR_proofs.vo"]
@@ -188,19 +189,86 @@ REPLAY_OUT = ["done", "left", "events_not_abstracted", "stuck_thread", "stuck_ev
               "signals_started", "signals_finished", "waits_started", "waits_returned_zero", "waits_returned_nonzero", "inv_b", "all_idle"]
 
 
+def preferred_order(info, grp):
+    """untrusted: a global order of the round's recorded events in which every value the library observed in dsema_value is the
+    current one and every return of sem_wait / successful sem_timedwait finds a positive kernel count (lib/replay.py, with the
+    hidden plain reads of the undo path); returns {id(event): key} (keys = 4 * rank) or None when the search gives up (the
+    recorder's stamps are then used as they are).  Only a preference: SemaR.replay decides"""
+    threads = []
+    for (thr, tr) in grp:
+        acts, call = [], None
+        need_load = False
+        for j, e in enumerate(tr):
+            if need_load:
+                acts.append(rsearch.Act(thr, j, None, ("load", e), indep=True, hidden=True))
+                need_load = False
+            indep = e.kind in (100, 101, 35) or (e.kind == 37 and e.b != 0) or (e.kind == 5 and not (e.ok & 1))
+            acts.append(rsearch.Act(thr, j, 2 * e.seq, ("ev", e), indep=indep))
+            if e.kind == 100:
+                call = e
+            elif e.kind == 7 and call is not None and call.a == 1 and call.b == 0 and s64(e.a) - 1 < 0:
+                need_load = True
+            elif e.kind == 37 and e.b != 0:
+                need_load = True
+        threads.append(acts)
+
+    def enabled(st, a):
+        value, ksem = st
+        what, e = a.data
+        if what == "load":
+            return value == s64(e.b) - 1 if e.kind == 5 else (value >= 0 if e.kind == 35 else True)
+        if e.kind in (6, 7):
+            return s64(e.a) == value
+        if e.kind == 5:
+            return s64(e.a) == value and (not (e.ok & 1) or value == s64(e.b) - 1)
+        if e.kind == 36 or (e.kind == 37 and e.b == 0):
+            return ksem > 0
+        return True
+
+    def apply(st, a):
+        value, ksem = st
+        what, e = a.data
+        if what == "load":
+            return st
+        if e.kind == 6:
+            return (value + 1, ksem)
+        if e.kind == 7:
+            return (value - 1, ksem)
+        if e.kind == 5 and e.ok & 1:
+            return (s64(e.b), ksem)
+        if e.kind == 38:
+            return (value, ksem + 1)
+        if e.kind == 36 or (e.kind == 37 and e.b == 0):
+            return (value, ksem - 1)
+        return st
+
+    order, complete = rsearch.linearize(threads, (info["v"], 0), enabled, apply)
+    if not complete:
+        return None
+    return {id(a.data[1]): 4 * (r + 1) for r, a in enumerate(order) if a.data[0] == "ev"}
+
+
 def global_replay(name, groups, budget=2500):
     """groups: list of (round, info, [(thread#, [Ev])]): every round is replayed, all its threads together, on the global model
     Sema.gstep by SemaR.replay inside Coq; returns one dict (REPLAY_OUT) per round, and the per-thread conformance results
     {(round, thread#): (index of the first rejected event or -1, ended idle)} of Sema.conform computed in the same evaluation"""
     out, part, nev, conf = [], [], 0, {}
+    nosearch = [0]
 
     def flush():
         nonlocal part, nev, out
         if not part:
             return
         body = ["Definition rounds : list (Z * list (Z * list (Z * event))) := ["]
-        body.append(";\n".join("(%d, [%s])" % (info["v"], "; ".join("(%d, [%s])" % (thr, "; ".join("(%d, %s)" % (2 * e.seq, e.coq()) for e in tr))
-                                                                   for (thr, tr) in grp)) for (_, info, grp) in part))
+        rows = []
+        for (_, info, grp) in part:
+            keys = preferred_order(info, grp)
+            if keys is None:
+                nosearch[0] += 1
+            kf = (lambda e, keys=keys: keys[id(e)]) if keys is not None else (lambda e: 2 * e.seq)
+            rows.append("(%d, [%s])" % (info["v"], "; ".join("(%d, [%s])" % (thr, "; ".join("(%d, %s)" % (kf(e), e.coq()) for e in tr))
+                                                              for (thr, tr) in grp)))
+        body.append(";\n".join(rows))
         body.append("].")
         # the replay result of every round, then the per-thread conformance result (Sema.conform) of every thread of every round
         body.append("Eval vm_compute in (map (fun '(v, ths) => SemaR.replay v ths) rounds, "
@@ -230,7 +298,7 @@ def global_replay(name, groups, budget=2500):
         part.append(g)
         nev += n
     flush()
-    return out, conf
+    return out, conf, nosearch[0]
 
 
 def replay_mismatches(res, groups, seed):
@@ -290,7 +358,8 @@ def correspond(ctx):
         f, tr, st, groups = analyse(text, "seed%d" % seed)
         fails += f
         alltr += [(sv, t, rd, thr, seed) for (sv, t, rd, thr) in tr]
-        rres, conf = global_replay("c08_replay_%d" % i, groups)
+        rres, conf, nos = global_replay("c08_replay_%d" % i, groups)
+        total["replay_order_search_gave_up"] = total.get("replay_order_search_gave_up", 0) + nos
         confall.update({(seed, rd, thr): v for (rd, thr), v in conf.items()})
         rm, okc = replay_mismatches(rres, groups, seed)
         rmism += rm
@@ -352,7 +421,8 @@ def correspond(ctx):
                     "storms without SA_RESTART, rescue signals by the main thread when only untimed waiters remain, then a drain by "
                     "polling; every per-thread event trace recorded by the DISPATCH_VERIF hook is replayed through Sema.tstep_vis "
                     "inside Coq (evaluations = thread traces); WHOLE-ROUND REPLAY: all threads of a round (main thread included), "
-                    "merged by the recorder's stamps, are replayed on the global model Sema.gstep (SemaR.replay inside Coq: an action "
+                    "merged in an order found by an untrusted search that starts from the recorder's stamps (lib/replay.py), are "
+                    "replayed on the global model Sema.gstep (SemaR.replay inside Coq: an action "
                     "is taken only when the model accepts it with the value the library observed in dsema_value and, for a return "
                     "of sem_wait / a successful sem_timedwait, with a positive kernel count in the model; every action must be "
                     "consumed), the end state must have the library's final dsema_value and sem_getvalue and satisfy the boolean "
